@@ -9,7 +9,9 @@
  *        xmlload replay <xml-file> <dump-out> [B|F|D] [flags] [u]    (the file IS the XML, loaded as len+1 bytes with a NUL)
  *   mode B = set_xmlbuffer, F = set_xml(path), D = diff_load_xmlbuffer; u = userdata import callback set
  *   flags  = hwloc topology flags | (filter mode << 16); filter mode 0 = default filters, 1 = all types KEEP_ALL,
- *            2 = I/O types KEEP_IMPORTANT
+ *            2 = I/O types KEEP_IMPORTANT; bit (20 + type) set = hwloc_topology_set_type_filter(type, KEEP_NONE) afterwards
+ *            (refused for PU/NUMANode/Machine: ignored)
+ *   env VERIF_DISTORACLE=1 (replay): the distances oracle (see dist_oracle) is applied to the loaded topology
  * gen writes <outdir>/c<idx>.xml BEFORE loading it (removed again when the case failed/was skipped cleanly; kept when the
  * load succeeded so that the engine still has the bytes when the oracle verdict arrives), appends
  *   <caseid> <mode> <flags> <u> <len> <hash> <loaded|failed|skipped-F05x>      to <outdir>/plan.txt
@@ -19,6 +21,18 @@
  * inputs live on as corpus/xmlload/fixed-f05*.xml and must load or fail cleanly.  A sanitizer report, abort, leak or watchdog
  * hit on ANY input is a violation.  Sizes <= 0 are given to set_xmlbuffer / diff_load_xmlbuffer in ~2 % of the cases (must be
  * refused).
+ *
+ * Distances-list class (C06-r2): documents with 1..5 <distances2>/<distances2hetero> elements (own exports of synthetic topologies
+ * with several user matrices over NUMANode/PU (os indexing), Core/Package/L3/L2 (gp indexing) and heterogeneous objects, and the
+ * bundled files that carry distances) in which the <indexes> of a chosen SUBSET of the elements are retargeted to objects that do
+ * not exist (all of them, or all but one: the matrix becomes useless and is dropped by hwloc_internal_distances_refresh() at the
+ * end of load) or of which some indexes are retargeted while >= 2 stay valid (the matrix is kept and compacted), and/or loaded with
+ * a KEEP_NONE filter on the type of some matrices.  Every `gen` process first runs a prologue that enumerates EVERY subset (62 =
+ * sum of 2^k, k = 1..5) of dropped elements, then DD_FILTER_CASES filter-driven cases; ~7 % of the random cases belong to the class
+ * too.  Plan comment: `# distdrop <caseid> k=<elements> drop=<bit string, element order> mech=<r|f|rf|->`.
+ * Oracle for those cases (dist_oracle): the surviving matrices, their order, names, objects (after compaction) and values are
+ * recomputed from the document text + public lookups on the loaded topology and must be what hwloc_distances_get() returns; then
+ * dist_list_probe() appends/removes matrices through the public API to exercise first_dist/last_dist/prev/next of the list.
  */
 #define _GNU_SOURCE
 #include "dump.h"
@@ -28,6 +42,9 @@
 #include <stdarg.h>
 #include <signal.h>
 #include <ctype.h>
+#ifndef HWLOC_OBJ_TYPE_NONE
+#define HWLOC_OBJ_TYPE_NONE ((hwloc_obj_type_t) -1)   /* as in include/private/misc.h */
+#endif
 extern size_t __sanitizer_get_current_allocated_bytes(void);   /* ASan runtime */
 extern int __lsan_do_recoverable_leak_check(void);
 
@@ -86,8 +103,11 @@ static int known_class(const unsigned char *p, size_t n, char mode, unsigned lon
 /* ------------------------------------------------------------------ running one case */
 static FILE *fdump;
 static volatile unsigned long sink;
-static unsigned long n_f70, n_f72;
+static unsigned long n_f70, n_f72, n_mcleaf;
 static unsigned long nfail;
+static int g_distoracle;        /* apply dist_oracle to the next case (gen: cases of the distances-list class; replay: VERIF_DISTORACLE) */
+static char g_distpat[24];      /* effective drop pattern found by the oracle ("" = no opinion) */
+static unsigned long n_oracle, n_oracle_noopinion, n_probe;
 static struct buf valid_doc;      /* a known valid topology document (for the "fresh topology after failure" check) */
 
 static void die(const char *fmt, ...) {
@@ -108,6 +128,8 @@ static void configure(hwloc_topology_t t, unsigned long xflags, int u) {
   if (hwloc_topology_set_flags(t, flags) < 0) die("set_flags(%lu) refused", flags);
   if (fm == 1) hwloc_topology_set_all_types_filter(t, HWLOC_TYPE_FILTER_KEEP_ALL);
   else if (fm == 2) hwloc_topology_set_io_types_filter(t, HWLOC_TYPE_FILTER_KEEP_IMPORTANT);
+  for (int ty = 0; ty < HWLOC_OBJ_TYPE_MAX && ty < 40; ty++)
+    if ((xflags >> (20 + ty)) & 1) hwloc_topology_set_type_filter(t, (hwloc_obj_type_t) ty, HWLOC_TYPE_FILTER_KEEP_NONE);   /* EINVAL for PU/NUMA/Machine: ignored */
   if (u) hwloc_topology_set_userdata_import_callback(t, ud_import_cb);
 }
 
@@ -141,6 +163,20 @@ static void touch_location(struct hwloc_location *l) {
   else if (l->type == HWLOC_LOCATION_TYPE_OBJECT) { if (l->location.object) sink += l->location.object->type + l->location.object->gp_index; }
 }
 
+/* The shared well-formedness oracle (hwmodel topo) needs time and memory LINEAR in the largest gp_index of a dump (8 s / 16 GB at
+ * 2^31, unbounded above): loaded topologies with a gp_index >= 2^22 (only reachable by mutating a gp_index attribute) are not
+ * dumped for it (counted: `# hugegp-skipped`); everything else (battery, re-import, dup, distances probe, sanitizers) still runs. */
+static int g_nodump; static unsigned long n_hugegp;
+static int has_huge_gp(hwloc_topology_t t) {
+  int depth = hwloc_topology_get_depth(t);
+  static const int sd[] = {HWLOC_TYPE_DEPTH_NUMANODE, HWLOC_TYPE_DEPTH_BRIDGE, HWLOC_TYPE_DEPTH_PCI_DEVICE, HWLOC_TYPE_DEPTH_OS_DEVICE, HWLOC_TYPE_DEPTH_MISC, HWLOC_TYPE_DEPTH_MEMCACHE};
+  unsigned long nobj = 0;
+  for (int di = 0; di < depth + 6; di++) {
+    hwloc_obj_t o = NULL;
+    while ((o = hwloc_get_next_obj_by_depth(t, di < depth ? di : sd[di - depth], o)) != NULL) { if (o->gp_index >= (1ULL << 22)) return 1; if (++nobj > 3000000) return 0; }
+  }
+  return 0;
+}
 static void battery(hwloc_topology_t t, const char *caseid, unsigned long xflags) {
   int depth = hwloc_topology_get_depth(t);
   static const int sdepths[] = {HWLOC_TYPE_DEPTH_NUMANODE, HWLOC_TYPE_DEPTH_BRIDGE, HWLOC_TYPE_DEPTH_PCI_DEVICE,
@@ -238,7 +274,25 @@ static void battery(hwloc_topology_t t, const char *caseid, unsigned long xflags
     /* F72 (open): the importer keeps whatever type the root <object> has; with a NUMANode (memory) root
      * hwloc_topology_export_synthetic() aborts in hwloc_check_memory_symmetric (topology-synthetic.c:1547, assert(node)).
      * Exact predicate on the LOADED topology: root is not a Machine -> synthetic export skipped unless VERIF_INCLUDE_F72=1. */
+    /* memcache-leaf (open; a crash consequence of the known class F05w = the importer has no validity gate, here: a MemCache whose
+     * nodeset is not that of NUMA nodes below it; found while widening C06 for the distances-list class, corpus/xmlload/
+     * open-memcache-leaf.B.xml): the importer accepts a memory child chain that does not end in a NUMANode (e.g. a childless
+     * <object type="MemCache"/>, filters KEEP_ALL); hwloc_topology_export_synthetic() then aborts in
+     * hwloc__export_synthetic_memory_children (topology-synthetic.c:1523, assert(numanode)).  Predicate on the LOADED topology,
+     * mirroring that loop: some memory child of a normal object whose memory_first_child chain has no NUMANode -> synthetic export
+     * skipped unless VERIF_INCLUDE_F05W=1 (or VERIF_INCLUDE_MEMCACHE_LEAF=1). */
+    int mcleaf = 0;
+    for (int d = 0; d < depth && !mcleaf; d++) {
+      hwloc_obj_t o = NULL;
+      while (!mcleaf && (o = hwloc_get_next_obj_by_depth(t, d, o)) != NULL)
+        for (hwloc_obj_t mc = o->memory_first_child; mc && !mcleaf; mc = mc->next_sibling) {
+          hwloc_obj_t n = mc; unsigned guard = 0;
+          while (n && n->type != HWLOC_OBJ_NUMANODE && guard++ < 100000) n = n->memory_first_child;
+          if (!n) mcleaf = 1;
+        }
+    }
     if (hwloc_get_root_obj(t)->type != HWLOC_OBJ_MACHINE && 0 /* F72 fixed in /repo */) n_f72++;
+    else if (mcleaf && !env_on("VERIF_INCLUDE_MEMCACHE_LEAF") && !env_on("VERIF_INCLUDE_F05W")) n_mcleaf++;
     else {
     int r = hwloc_topology_export_synthetic(t, sb, sizeof sb, 0); if (r >= 0) sink += strlen(sb);
     r = hwloc_topology_export_synthetic(t, sb, sizeof sb, HWLOC_TOPOLOGY_EXPORT_SYNTHETIC_FLAG_NO_EXTENDED_TYPES | HWLOC_TOPOLOGY_EXPORT_SYNTHETIC_FLAG_NO_ATTRS | HWLOC_TOPOLOGY_EXPORT_SYNTHETIC_FLAG_IGNORE_MEMORY);
@@ -261,7 +315,7 @@ static void battery(hwloc_topology_t t, const char *caseid, unsigned long xflags
           fprintf(stderr, "---- exported document that does not load ----\n%.*s\n----\n", xl > 6000 ? 6000 : xl, xb);
           die("re-import of the v3 export failed");
         }
-        dump_topology(fdump, t2, tag); fflush(fdump);
+        if (!g_nodump) { dump_topology(fdump, t2, tag); fflush(fdump); }
         hwloc_topology_destroy(t2);
       }
     }
@@ -276,9 +330,296 @@ static void battery(hwloc_topology_t t, const char *caseid, unsigned long xflags
   else if (caseid) {
     hwloc_topology_t t2 = NULL; char tag[80]; snprintf(tag, sizeof tag, "%sd", caseid);
     if (hwloc_topology_dup(&t2, t) < 0) die("hwloc_topology_dup failed (errno %d)", errno);
-    dump_topology(fdump, t2, tag); fflush(fdump);
+    if (!g_nodump) { dump_topology(fdump, t2, tag); fflush(fdump); }
     hwloc_topology_destroy(t2);
   }
+}
+
+/* ------------------------------------------------------------------ distances elements: finder, retargeting, oracle, list probe */
+struct delem { size_t s, e; int hetero; };     /* [s,e) = `<distances2…>` … `</distances2…>` */
+static unsigned find_delems(const unsigned char *p, size_t n, struct delem *out, unsigned cap) {
+  unsigned cnt = 0; size_t i = 0;
+  while (i + 12 < n) {
+    const unsigned char *q = xmemmem(p + i, n - i, "<distances2");
+    if (!q) break;
+    size_t s = q - p; int het = s + 17 <= n && !memcmp(p + s + 11, "hetero", 6);
+    const char *close = het ? "</distances2hetero>" : "</distances2>";
+    size_t after = s + 11 + (het ? 6 : 0);
+    if (after >= n || p[after] != ' ') { i = s + 11; continue; }
+    const unsigned char *e = xmemmem(q, n - s, close);
+    if (!e) break;
+    if (cnt < cap) { out[cnt].s = s; out[cnt].e = (size_t) (e - p) + strlen(close); out[cnt].hetero = het; }
+    cnt++; i = (size_t) (e - p) + strlen(close);
+  }
+  return cnt;
+}
+/* next `<tag length="L">content</tag>` child in [from,to): positions of the length digits and of the content; 0 if none / malformed */
+static int next_array_child(const unsigned char *p, size_t from, size_t to, const char *tag, size_t *ls, size_t *ll, size_t *cs, size_t *cl, size_t *next) {
+  char open[40]; snprintf(open, sizeof open, "<%s length=\"", tag);
+  if (from >= to) return 0;
+  const unsigned char *q = xmemmem(p + from, to - from, open);
+  if (!q) return 0;
+  size_t a = (size_t) (q - p) + strlen(open), b = a;
+  while (b < to && isdigit(p[b])) b++;
+  if (b == a || b + 2 > to || p[b] != '"' || p[b + 1] != '>') return 0;
+  size_t c = b + 2, d = c;
+  while (d < to && p[d] != '<') d++;
+  if (d >= to) return 0;
+  *ls = a; *ll = b - a; *cs = c; *cl = d - c; *next = d;
+  return 1;
+}
+/* retarget the <indexes> of the j-th distances element: mode 0 = every index -> non-existing object, 1 = all but one,
+ * 2 = some of them, at least 2 stay valid and (if there are >= 3) at least one goes.  Returns the number of index tokens or -1. */
+static int retarget_elem(struct buf *b, unsigned j, int mode) {
+  struct delem de[16]; unsigned nd = find_delems(b->p, b->n, de, 16);
+  if (j >= nd || j >= 16) return -1;
+  size_t s = de[j].s, e = de[j].e, pos, ls, ll, cs, cl, nx;
+  unsigned ntok = 0;
+  for (pos = s; next_array_child(b->p, pos, e, "indexes", &ls, &ll, &cs, &cl, &nx); pos = nx)
+    for (size_t i = cs; i < cs + cl; i++) if (b->p[i] != ' ' && (i == cs || b->p[i - 1] == ' ')) ntok++;
+  if (!ntok || ntok > 4096) return -1;
+  unsigned char *inv = calloc(ntok, 1);
+  if (mode == 0) memset(inv, 1, ntok);
+  else if (mode == 1) { memset(inv, 1, ntok); inv[rng_below(ntok)] = 0; }
+  else if (ntok >= 3) {
+    unsigned nvalid = ntok;
+    for (unsigned i = 0; i < ntok; i++) if (nvalid > 2 && rng_chance(40)) { inv[i] = 1; nvalid--; }
+    if (nvalid == ntok) inv[rng_below(ntok)] = 1;
+  }
+  struct buf ne = {0}; b_set(&ne, "", 0);
+  size_t copied = s; unsigned k = 0;
+  for (pos = s; next_array_child(b->p, pos, e, "indexes", &ls, &ll, &cs, &cl, &nx); pos = nx) {
+    char content[8192]; size_t cn = 0; size_t i = cs;
+    while (i < cs + cl && cn + 64 < sizeof content) {
+      if (b->p[i] == ' ') { content[cn++] = ' '; i++; continue; }
+      size_t te = i; while (te < cs + cl && b->p[te] != ' ') te++;
+      size_t colon = i; { const unsigned char *c = memchr(b->p + i, ':', te - i); colon = c ? (size_t) (c - b->p) + 1 : i; }
+      if (k < ntok && inv[k] && te - colon < 24) {
+        char num[32]; memcpy(num, b->p + colon, te - colon); num[te - colon] = 0;
+        unsigned long long v = strtoull(num, NULL, 10);
+        memcpy(content + cn, b->p + i, colon - i); cn += colon - i;
+        unsigned r = rng_below(10);
+        if (r < 7) cn += sprintf(content + cn, "%llu", v + 1000000ULL);
+        else if (r < 9) cn += sprintf(content + cn, "%llu", 3000000000ULL + k);       /* > INT_MAX, < 2^32 */
+        else cn += sprintf(content + cn, "%llu", 77777777777ULL + k);                 /* > 2^32 (low 32 bits: 474,301,649+k, no such os_index) */
+      } else { if (te - i > 200) { free(inv); free(ne.p); return -1; } memcpy(content + cn, b->p + i, te - i); cn += te - i; }
+      k++; i = te;
+    }
+    char lenstr[24]; int lenn = sprintf(lenstr, "%zu", cn);
+    b_splice(&ne, ne.n, 0, b->p + copied, ls - copied);
+    b_splice(&ne, ne.n, 0, lenstr, lenn);
+    b_splice(&ne, ne.n, 0, b->p + ls + ll, cs - (ls + ll));
+    b_splice(&ne, ne.n, 0, content, cn);
+    copied = cs + cl;
+  }
+  b_splice(&ne, ne.n, 0, b->p + copied, e - copied);
+  b_splice(b, s, e - s, ne.p, ne.n);
+  free(ne.p); free(inv);
+  return (int) ntok;
+}
+
+/* gp_index lookup exactly as hwloc_get_obj_by_type_and_gp_index(), through the public API */
+static hwloc_obj_t obj_by_type_gp(hwloc_topology_t t, hwloc_obj_type_t type, unsigned long long gp) {
+  int depth = hwloc_get_type_depth(t, type);
+  if (depth == HWLOC_TYPE_DEPTH_UNKNOWN) return NULL;
+  if (depth == HWLOC_TYPE_DEPTH_MULTIPLE) {
+    int top = hwloc_topology_get_depth(t);
+    for (depth = 1; depth < top - 1; depth++) if (hwloc_get_depth_type(t, depth) == type) {
+      hwloc_obj_t o = NULL; while ((o = hwloc_get_next_obj_by_depth(t, depth, o)) != NULL) if (o->gp_index == gp) return o;
+    }
+    return NULL;
+  }
+  hwloc_obj_t o = NULL; while ((o = hwloc_get_next_obj_by_depth(t, depth, o)) != NULL) if (o->gp_index == gp) return o;
+  return NULL;
+}
+static int all_digits(const unsigned char *p, size_t n, size_t maxlen) {
+  if (!n || n > maxlen || (n > 1 && p[0] == '0')) return 0;
+  for (size_t i = 0; i < n; i++) if (!isdigit(p[i])) return 0;
+  return 1;
+}
+struct dexp { char name[64]; int has_name; unsigned nb; hwloc_obj_t objs[64]; unsigned long long *vals; unsigned long kind; };
+/* Oracle of the distances-list class.  Applies to documents whose distances elements ALL have exactly the exporter's shape
+ * (attributes type/nbobjs/kind/name/indexing once each, plain decimal numbers, children <indexes>/<u64values> only, lengths
+ * right, nbobjs / nbobjs^2 tokens); anything else: returns -1 (no opinion).  Otherwise the list hwloc_distances_get() must return
+ * = for each element in document order: ignored if nbobjs < 2, if its indexing does not fit its type, or under NO_DISTANCES; its
+ * indexes resolved in the LOADED topology (PU/NUMANode: os_index truncated to unsigned; else (type, gp_index)); dropped when fewer
+ * than 2 objects exist; else kept with the existing objects in order and the corresponding sub-matrix.  Returns #kept. */
+static int dist_oracle(hwloc_topology_t t, const unsigned char *p, size_t n, unsigned long xflags, char *pattern, size_t patcap) {
+  struct delem de[16]; unsigned nd = find_delems(p, n, de, 16);
+  static struct dexp ex[16]; unsigned nex = 0; int rc = -1;
+  if (nd > 16) return -1;
+  /* the elements must be direct children of <topology>: no <object> may be open at their position (cheap exact test on the
+   * exporter's layout: 2 spaces of indentation) */
+  for (unsigned j = 0; j < nd; j++) ex[j].vals = NULL;
+  if (patcap) pattern[0] = 0;
+  for (unsigned j = 0; j < nd; j++) {
+    size_t s = de[j].s, e = de[j].e;
+    if (s < 3 || memcmp(p + s - 3, "\n  ", 3)) goto out;
+    size_t i = s + 11 + (de[j].hetero ? 6 : 0);
+    char type[32] = "", indexing[8] = "", name[64] = ""; int has_name = 0, has_type = 0, has_idx = 0, has_nb = 0, has_kind = 0;
+    unsigned long nbobjs = 0, kind = 0;
+    while (i < e && p[i] == ' ') {
+      size_t a = ++i; while (i < e && name_char(p[i])) i++;
+      if (i == a || i + 1 >= e || p[i] != '=' || p[i + 1] != '"') goto out;
+      size_t vs = i + 2; const unsigned char *q = memchr(p + vs, '"', e - vs); if (!q) goto out;
+      size_t vl = (size_t) (q - (p + vs)); i = vs + vl + 1;
+      if (memchr(p + vs, '&', vl) || memchr(p + vs, '<', vl) || memchr(p + vs, '>', vl)) goto out;
+      size_t al = vs - 2 - a;
+#define IS(nm) (al == strlen(nm) && !memcmp(p + a, nm, al))
+      if (IS("type")) { if (has_type++ || vl >= sizeof type || de[j].hetero) goto out; memcpy(type, p + vs, vl); type[vl] = 0; }
+      else if (IS("nbobjs")) { if (has_nb++ || !all_digits(p + vs, vl, 5)) goto out; nbobjs = strtoul((const char *) p + vs, NULL, 10); }
+      else if (IS("kind")) { if (has_kind++ || !all_digits(p + vs, vl, 9)) goto out; kind = strtoul((const char *) p + vs, NULL, 10); }
+      else if (IS("name")) { if (has_name++ || vl >= sizeof name) goto out; memcpy(name, p + vs, vl); name[vl] = 0; }
+      else if (IS("indexing")) { if (has_idx++ || vl >= sizeof indexing || de[j].hetero) goto out; memcpy(indexing, p + vs, vl); indexing[vl] = 0; }
+      else goto out;
+#undef IS
+    }
+    if (i >= e || p[i] != '>') goto out;
+    i++;
+    if (!has_nb || !has_kind || nbobjs < 1 || nbobjs > 64) goto out;
+    hwloc_obj_type_t uty = HWLOC_OBJ_TYPE_NONE;
+    if (!de[j].hetero) {
+      if (!has_type || !has_idx || (strcmp(indexing, "os") && strcmp(indexing, "gp"))) goto out;
+      if (hwloc_type_sscanf(type, &uty, NULL, 0) < 0 || strcmp(type, hwloc_obj_type_string(uty))) goto out;
+    }
+    /* children */
+    unsigned long long idx[64]; hwloc_obj_type_t tys[64]; unsigned nidx = 0, nval = 0;
+    unsigned long long *vals = malloc(sizeof *vals * nbobjs * nbobjs);
+    ex[nex].vals = vals;   /* freed at out */
+    size_t closelen = de[j].hetero ? 19 : 13;
+    while (1) {
+      while (i < e - closelen && (p[i] == ' ' || p[i] == '\n')) i++;
+      if (i >= e - closelen) break;
+      int isidx = e - i > 9 && !memcmp(p + i, "<indexes ", 9), isval = e - i > 11 && !memcmp(p + i, "<u64values ", 11);
+      if (!isidx && !isval) goto out;
+      size_t ls, ll, cs, cl, nx;
+      if (!next_array_child(p, i, e, isidx ? "indexes" : "u64values", &ls, &ll, &cs, &cl, &nx) || ls != i + (isidx ? 17 : 19)) goto out;
+      if (!all_digits(p + ls, ll, 6) || strtoul((const char *) p + ls, NULL, 10) != cl) goto out;
+      const char *closetag = isidx ? "</indexes>" : "</u64values>";
+      if (nx + strlen(closetag) > e || memcmp(p + nx, closetag, strlen(closetag))) goto out;
+      /* tokens: each followed by exactly one space */
+      size_t k = cs;
+      while (k < cs + cl) {
+        size_t te = k; while (te < cs + cl && p[te] != ' ') te++;
+        if (te == k || te >= cs + cl) goto out;       /* empty token / no trailing space */
+        if (isidx) {
+          if (nidx >= nbobjs) goto out;
+          size_t num = k;
+          if (de[j].hetero) {
+            const unsigned char *c = memchr(p + k, ':', te - k); if (!c) goto out;
+            char tn[32]; size_t tl = (size_t) (c - (p + k)); if (tl >= sizeof tn) goto out; memcpy(tn, p + k, tl); tn[tl] = 0;
+            if (hwloc_type_sscanf(tn, &tys[nidx], NULL, 0) < 0 || strcmp(tn, hwloc_obj_type_string(tys[nidx]))) goto out;
+            num = k + tl + 1;
+          } else tys[nidx] = uty;
+          if (!all_digits(p + num, te - num, 19)) goto out;
+          idx[nidx++] = strtoull((const char *) p + num, NULL, 10);
+        } else {
+          if (nval >= nbobjs * nbobjs || !all_digits(p + k, te - k, 19)) goto out;
+          vals[nval++] = strtoull((const char *) p + k, NULL, 10);
+        }
+        k = te + 1;
+      }
+      i = nx + strlen(closetag);
+    }
+    if (nidx != nbobjs || nval != nbobjs * nbobjs) goto out;
+    /* semantics of hwloc__xml_import_distances + hwloc_internal_distances_refresh_one */
+    int ignored = 0;
+    if (nbobjs < 2) ignored = 1;
+    else if (!de[j].hetero) { int os = uty == HWLOC_OBJ_PU || uty == HWLOC_OBJ_NUMANODE; if (os != !strcmp(indexing, "os")) ignored = 1; }
+    if (xflags & HWLOC_TOPOLOGY_FLAG_NO_DISTANCES) ignored = 1;
+    struct dexp *x = &ex[nex];
+    x->nb = 0; x->has_name = has_name; strcpy(x->name, name); x->kind = kind;
+    if (!ignored) {
+      unsigned char live[64];
+      for (unsigned a = 0; a < nbobjs; a++) {
+        hwloc_obj_t o;
+        if (!de[j].hetero && uty == HWLOC_OBJ_PU) o = hwloc_get_pu_obj_by_os_index(t, (unsigned) idx[a]);
+        else if (!de[j].hetero && uty == HWLOC_OBJ_NUMANODE) o = hwloc_get_numanode_obj_by_os_index(t, (unsigned) idx[a]);
+        else o = obj_by_type_gp(t, tys[a], idx[a]);
+        live[a] = o != NULL;
+        if (o) x->objs[x->nb++] = o;
+      }
+      if (x->nb >= 2) {   /* kept: compact the values in place (row-major over the live indexes) */
+        unsigned w = 0;
+        for (unsigned a = 0; a < nbobjs; a++) if (live[a]) for (unsigned c = 0; c < nbobjs; c++) if (live[c]) vals[w++] = vals[a * nbobjs + c];
+      }
+    }
+    if (j < patcap - 1) { pattern[j] = (ignored || x->nb < 2) ? '1' : '0'; pattern[j + 1] = 0; }
+    if (!ignored && x->nb >= 2) nex++; else { free(vals); ex[nex].vals = NULL; }
+  }
+  /* compare with the public view */
+  { struct hwloc_distances_s *ds[64]; unsigned nr = 64;
+    if (hwloc_distances_get(t, &nr, ds, 0, 0) < 0) die("distances oracle: hwloc_distances_get failed (errno %d)", errno);
+    if (nr != nex) die("distances oracle: %u matrices after load, expected %u (drop pattern %s)", nr, nex, patcap ? pattern : "?");
+    for (unsigned k = 0; k < nr; k++) {
+      struct hwloc_distances_s *d = ds[k]; struct dexp *x = &ex[k];
+      const char *nm = hwloc_distances_get_name(t, d);
+      if ((nm != NULL) != (x->has_name != 0) || (nm && strcmp(nm, x->name))) die("distances oracle: matrix %u is named %s, expected %s (drop pattern %s)", k, nm ? nm : "(null)", x->has_name ? x->name : "(null)", pattern);
+      if (d->nbobjs != x->nb) die("distances oracle: matrix %u (%s) has %u objects, expected %u", k, nm ? nm : "", d->nbobjs, x->nb);
+      for (unsigned a = 0; a < x->nb; a++) if (d->objs[a] != x->objs[a]) die("distances oracle: matrix %u (%s) object %u is not the expected one", k, nm ? nm : "", a);
+      for (unsigned a = 0; a < x->nb * x->nb; a++) if (d->values[a] != x->vals[a]) die("distances oracle: matrix %u (%s) value %u is %llu, expected %llu", k, nm ? nm : "", a, (unsigned long long) d->values[a], x->vals[a]);
+      if ((d->kind ^ x->kind) & ~(unsigned long) (HWLOC_DISTANCES_KIND_VALUE_LATENCY | HWLOC_DISTANCES_KIND_VALUE_HOPS | HWLOC_DISTANCES_KIND_HETEROGENEOUS_TYPES)) die("distances oracle: matrix %u (%s) kind %lu, expected %lu", k, nm ? nm : "", d->kind, x->kind);
+    }
+    for (unsigned k = 0; k < nr; k++) hwloc_distances_release(t, ds[k]); }
+  rc = (int) nex;
+out:
+  for (unsigned j = 0; j < 16; j++) { free(ex[j].vals); ex[j].vals = NULL; }
+  return rc;
+}
+
+/* Exercise the links of the internal distances list through the public API (the topology is destroyed right afterwards):
+ * append a matrix (uses last_dist), remove the first one and the appended one (prev/next/first_dist/last_dist), remove all. */
+struct dsig { char name[64]; int has_name; unsigned nb; unsigned long kind; hwloc_uint64_t v0; };
+static unsigned dist_sigs(hwloc_topology_t t, struct dsig *sg, struct hwloc_distances_s **keep_first, struct hwloc_distances_s **keep_last) {
+  struct hwloc_distances_s *ds[64]; unsigned nr = 64;
+  if (hwloc_distances_get(t, &nr, ds, 0, 0) < 0) die("distances probe: hwloc_distances_get failed");
+  if (nr > 64) { unsigned all = nr; nr = 64; (void) all; }
+  for (unsigned k = 0; k < nr; k++) {
+    const char *nm = hwloc_distances_get_name(t, ds[k]);
+    sg[k].has_name = nm != NULL; snprintf(sg[k].name, sizeof sg[k].name, "%s", nm ? nm : "");
+    sg[k].nb = ds[k]->nbobjs; sg[k].kind = ds[k]->kind; sg[k].v0 = ds[k]->nbobjs ? ds[k]->values[ds[k]->nbobjs > 1 ? 1 : 0] : 0;
+    if ((keep_first && k == 0) || (keep_last && k == nr - 1 && !(keep_first && k == 0))) continue;
+    hwloc_distances_release(t, ds[k]);
+  }
+  if (keep_first) *keep_first = nr ? ds[0] : NULL;
+  if (keep_last) *keep_last = nr > (keep_first ? 1u : 0u) ? ds[nr - 1] : NULL;
+  return nr;
+}
+static int dsig_eq(const struct dsig *a, const struct dsig *b) { return a->has_name == b->has_name && !strcmp(a->name, b->name) && a->nb == b->nb && a->kind == b->kind && a->v0 == b->v0; }
+static void dist_list_probe(hwloc_topology_t t) {
+  static struct dsig s0[64], s1[65], s2[64];
+  unsigned n0 = dist_sigs(t, s0, NULL, NULL);
+  if (n0 > 60) return;
+  unsigned npu = hwloc_get_nbobjs_by_type(t, HWLOC_OBJ_PU);
+  if (npu < 2) return;
+  hwloc_obj_t objs[2] = { hwloc_get_obj_by_type(t, HWLOC_OBJ_PU, 0), hwloc_get_obj_by_type(t, HWLOC_OBJ_PU, npu - 1) };
+  hwloc_uint64_t vals[4] = { 1, 424242, 424243, 1 };
+  if (!objs[0] || !objs[1] || objs[0] == objs[1]) return;
+  hwloc_distances_add_handle_t h = hwloc_distances_add_create(t, "verif-probe", HWLOC_DISTANCES_KIND_FROM_USER | HWLOC_DISTANCES_KIND_VALUE_BANDWIDTH, 0);
+  if (!h) return;
+  if (hwloc_distances_add_values(t, h, 2, objs, vals, 0) < 0) return;
+  if (hwloc_distances_add_commit(t, h, 0) < 0) return;
+  struct hwloc_distances_s *first = NULL, *last = NULL;
+  unsigned n1 = dist_sigs(t, s1, &first, &last);
+  if (n1 != n0 + 1) die("distances probe: %u matrices after appending one to %u", n1, n0);
+  for (unsigned k = 0; k < n0; k++) if (!dsig_eq(&s0[k], &s1[k])) die("distances probe: matrix %u changed after an append", k);
+  if (strcmp(s1[n0].name, "verif-probe") || s1[n0].nb != 2 || s1[n0].v0 != 424242) die("distances probe: the appended matrix is not the last one");
+  /* remove the first one (if it is not the probe), then the probe (the last one) */
+  if (n0 >= 1) {
+    if (hwloc_distances_release_remove(t, first) < 0) die("distances probe: release_remove(first) failed");
+    unsigned n2 = dist_sigs(t, s2, NULL, NULL);
+    if (n2 != n0) die("distances probe: %u matrices after removing the first of %u", n2, n1);
+    for (unsigned k = 0; k < n2; k++) if (!dsig_eq(&s1[k + 1], &s2[k])) die("distances probe: matrix %u wrong after removing the first", k);
+    if (hwloc_distances_release_remove(t, last) < 0) die("distances probe: release_remove(last) failed");
+    n2 = dist_sigs(t, s2, NULL, NULL);
+    if (n2 != n0 - 1) die("distances probe: %u matrices after removing first and last of %u", n2, n1);
+    for (unsigned k = 0; k < n2; k++) if (!dsig_eq(&s1[k + 1], &s2[k])) die("distances probe: matrix %u wrong after removing first and last", k);
+  } else {
+    if (hwloc_distances_release_remove(t, first) < 0) die("distances probe: release_remove(only) failed");
+    if (dist_sigs(t, s2, NULL, NULL) != 0) die("distances probe: list not empty after removing the only matrix");
+  }
+  if (hwloc_distances_remove(t) < 0) die("distances probe: hwloc_distances_remove failed");
+  if (dist_sigs(t, s2, NULL, NULL) != 0) die("distances probe: list not empty after hwloc_distances_remove");
 }
 
 static void fresh_topology_check(void) {
@@ -348,8 +689,12 @@ static int run_case(const char *caseid, const unsigned char *bytes, size_t len, 
     if (r == 0 && mode != 'F' && have_override && size <= 0) die("set_xmlbuffer accepted a buffer of size %d", size);
     if (r == 0) { poison_stack(); r = hwloc_topology_load(t); if (r != 0 && r != -1) die("load returned %d", r); }
     if (r == 0) {
-      dump_topology(fdump, t, caseid); fflush(fdump);
+      g_nodump = has_huge_gp(t); if (g_nodump) n_hugegp++;
+      if (!g_nodump) { dump_topology(fdump, t, caseid); fflush(fdump); }
+      g_distpat[0] = 0;
+      if (g_distoracle && !have_override) { if (dist_oracle(t, bytes, len, xflags, g_distpat, sizeof g_distpat) >= 0) n_oracle++; else { n_oracle_noopinion++; g_distpat[0] = 0; } }
       battery(t, caseid, xflags);
+      dist_list_probe(t); n_probe++;      /* modifies the distances of t: last */
       ok = 1;
     }
     hwloc_topology_destroy(t);
@@ -476,6 +821,7 @@ static void annotate(hwloc_topology_t t, unsigned variant) {
   }
 }
 
+static int build_ddoc(struct buf *out, unsigned k, int v2);
 static void build_seeds(const char *sources) {
   /* (c) synthetic topologies first (the first small v3 export becomes valid_doc) */
   static const char *synths[] = {
@@ -522,6 +868,10 @@ static void build_seeds(const char *sources) {
     }
     hwloc_topology_destroy(t);
   }
+  /* (e) exports with several distances matrices (distances-list class) as ordinary seeds for the generic mutators */
+  { struct buf dd = {0};
+    for (unsigned k = 2; k <= 5; k++) if (build_ddoc(&dd, k, k == 3) == 0) add_doc(dd.p, dd.n, 0, 1);
+    free(dd.p); }
   { static const char d1[] = "<?xml version=\"1.0\" encoding=\"UTF-8\"?>\n<!DOCTYPE topologydiff SYSTEM \"hwloc2-diff.dtd\">\n<topologydiff refname=\"r\">\n"
       "  <diff type=\"0\" obj_depth=\"1\" obj_index=\"0\" obj_attr_type=\"0\" obj_attr_index=\"0\" obj_attr_oldvalue=\"1024\" obj_attr_newvalue=\"0x800\"/>\n"
       "  <diff type=\"0\" obj_depth=\"2\" obj_index=\"1\" obj_attr_type=\"1\" obj_attr_oldvalue=\"old\" obj_attr_newvalue=\"new\"/>\n"
@@ -690,6 +1040,80 @@ static void mutate_once(struct buf *b) {
   }
 }
 
+/* ------------------------------------------------------------------ distances-list class: documents and cases */
+#define DD_FILTER_CASES 16
+static const hwloc_obj_type_t dd_none_types[] = {HWLOC_OBJ_CORE, HWLOC_OBJ_PACKAGE, HWLOC_OBJ_L3CACHE, HWLOC_OBJ_L2CACHE};
+/* export (v3 or v2) of a synthetic topology with k user distances matrices of random object types; 0 on success */
+static int build_ddoc(struct buf *out, unsigned k, int v2) {
+  static const char *synths[] = {"pack:2 [numa] l3:2 core:2 pu:2", "numa:3 pack:1 l2:2 core:1 pu:2", "pack:3 [numa] [numa] core:2 pu:1",
+                                 "numa:2 pack:2 l3:1 l2:2 core:1 pu:2", "pack:2 [numa] [numa] l3:1 l2:3 core:1 pu:1"};
+  static const hwloc_obj_type_t cand[] = {HWLOC_OBJ_NUMANODE, HWLOC_OBJ_PU, HWLOC_OBJ_CORE, HWLOC_OBJ_PACKAGE, HWLOC_OBJ_L3CACHE, HWLOC_OBJ_L2CACHE,
+                                          HWLOC_OBJ_TYPE_NONE /* heterogeneous */, HWLOC_OBJ_NUMANODE, HWLOC_OBJ_TYPE_NONE};
+  hwloc_topology_t t;
+  if (hwloc_topology_init(&t) < 0) return -1;
+  hwloc_topology_set_all_types_filter(t, HWLOC_TYPE_FILTER_KEEP_ALL);
+  if (hwloc_topology_set_synthetic(t, synths[rng_below(sizeof synths / sizeof *synths)]) < 0 || hwloc_topology_load(t) < 0) { hwloc_topology_destroy(t); return -1; }
+  unsigned npu = hwloc_get_nbobjs_by_type(t, HWLOC_OBJ_PU), ncore = hwloc_get_nbobjs_by_type(t, HWLOC_OBJ_CORE);
+  for (unsigned j = 0; j < k; j++) {
+    hwloc_obj_t objs[6]; hwloc_uint64_t vals[36]; unsigned n = 0;
+    hwloc_obj_type_t ty; unsigned cnt = 0;
+    for (unsigned tries = 0; tries < 50; tries++) {
+      ty = cand[rng_below(sizeof cand / sizeof *cand)];
+      if (ty == HWLOC_OBJ_TYPE_NONE) break;
+      cnt = hwloc_get_nbobjs_by_type(t, ty);
+      if (cnt >= 2) break;
+      ty = HWLOC_OBJ_PU; cnt = npu;
+    }
+    if (ty == HWLOC_OBJ_TYPE_NONE) {
+      hwloc_obj_t pool[6] = { hwloc_get_obj_by_type(t, HWLOC_OBJ_PU, 0), hwloc_get_obj_by_type(t, HWLOC_OBJ_CORE, 0), hwloc_get_obj_by_type(t, HWLOC_OBJ_NUMANODE, 0),
+                              hwloc_get_obj_by_type(t, HWLOC_OBJ_PACKAGE, 0), hwloc_get_obj_by_type(t, HWLOC_OBJ_PU, npu - 1), hwloc_get_obj_by_type(t, HWLOC_OBJ_CORE, ncore - 1) };
+      n = 2 + rng_below(4); unsigned first = rng_below(6 - n + 1);
+      for (unsigned i = 0; i < n; i++) objs[i] = pool[first + i];
+    } else {
+      unsigned mx = cnt < 5 ? cnt : 5;
+      n = 2 + rng_below(mx - 1); unsigned first = rng_below(cnt - n + 1);
+      for (unsigned i = 0; i < n; i++) objs[i] = hwloc_get_obj_by_type(t, ty, first + i);
+    }
+    for (unsigned i = 0; i < n; i++) if (!objs[i]) { hwloc_topology_destroy(t); return -1; }
+    for (unsigned i = 0; i < n * n; i++) vals[i] = (i / n == i % n) ? 10 + j : 1000 * (j + 1) + i;
+    static const unsigned long kinds[] = {HWLOC_DISTANCES_KIND_VALUE_LATENCY, HWLOC_DISTANCES_KIND_VALUE_BANDWIDTH, HWLOC_DISTANCES_KIND_VALUE_HOPS};
+    char name[16]; snprintf(name, sizeof name, "m%u", j);
+    hwloc_distances_add_handle_t h = hwloc_distances_add_create(t, rng_chance(15) ? NULL : name, HWLOC_DISTANCES_KIND_FROM_USER | kinds[rng_below(3)], 0);
+    if (!h || hwloc_distances_add_values(t, h, n, objs, vals, 0) < 0 || hwloc_distances_add_commit(t, h, 0) < 0) { hwloc_topology_destroy(t); return -1; }
+  }
+  char *xb = NULL; int xl = 0;
+  if (hwloc_topology_export_xmlbuffer(t, &xb, &xl, v2 ? HWLOC_TOPOLOGY_EXPORT_XML_FLAG_V2 : 0) < 0) { hwloc_topology_destroy(t); return -1; }
+  b_set(out, xb, xl - 1);
+  hwloc_free_xmlbuffer(t, xb);
+  hwloc_topology_destroy(t);
+  struct delem de[16];
+  return find_delems(out->p, out->n, de, 16) == k ? 0 : -1;
+}
+/* retarget the elements selected by `mask` so that they get dropped; shrink (keep) some of the others */
+static void dd_apply_mask(struct buf *m, unsigned nd, unsigned mask) {
+  for (unsigned j = 0; j < nd && j < 16; j++) {
+    if ((mask >> j) & 1) retarget_elem(m, j, rng_chance(60) ? 0 : 1);
+    else if (rng_chance(25)) retarget_elem(m, j, 2);
+  }
+}
+/* KEEP_NONE filter bits: preferably the gp-indexed type of one of the document's matrices (all its objects vanish) */
+static unsigned long dd_none_filter(const struct buf *m) {
+  struct delem de[16]; unsigned nd = find_delems(m->p, m->n, de, 16); if (nd > 16) nd = 16;
+  unsigned long x = 0;
+  for (unsigned tries = 0; tries < 8 && !x && nd; tries++) {
+    struct delem *d = &de[rng_below(nd)];
+    for (unsigned i = 0; i < 4; i++) {
+      char pat[40]; snprintf(pat, sizeof pat, "%s%s%s", d->hetero ? "" : "type=\"", hwloc_obj_type_string(dd_none_types[i]), d->hetero ? ":" : "\"");
+      const unsigned char *q = xmemmem(m->p + d->s, d->e - d->s, pat);
+      if (q && (!x || rng_chance(50))) x = 1UL << (20 + dd_none_types[i]);
+    }
+  }
+  if (!x) x = 1UL << (20 + dd_none_types[rng_below(4)]);
+  if (rng_chance(30)) x |= 1UL << (20 + dd_none_types[rng_below(4)]);
+  return x;
+}
+static void mask_str(char *out, unsigned k, unsigned mask) { for (unsigned j = 0; j < k; j++) out[j] = ((mask >> j) & 1) ? '1' : '0'; out[k] = 0; }
+
 static unsigned long gen_xflags(void) {
   static const unsigned long bits[] = {HWLOC_TOPOLOGY_FLAG_INCLUDE_DISALLOWED, HWLOC_TOPOLOGY_FLAG_IMPORT_SUPPORT, HWLOC_TOPOLOGY_FLAG_NO_DISTANCES,
                                        HWLOC_TOPOLOGY_FLAG_NO_MEMATTRS, HWLOC_TOPOLOGY_FLAG_NO_CPUKINDS};
@@ -703,6 +1127,47 @@ static int write_file(const char *path, const unsigned char *p, size_t n) {
   FILE *f = fopen(path, "wb"); if (!f) return -1;
   if (n && fwrite(p, 1, n, f) != n) { fclose(f); return -1; }
   return fclose(f);
+}
+
+/* one case of the distances-list class: plan lines, run, coverage comment.  `want` = drop pattern the generator intended (NULL: none) */
+static int dd_exec(FILE *fplan, const char *outdir, const char *id, struct buf *m, char mode, unsigned long xflags, int u, unsigned k, const char *want, const char *mech, int pristine, int strict) {
+  char path[1200];
+  snprintf(path, sizeof path, "%s/%s.xml", outdir, id);
+  if (write_file(path, m->p, m->n) < 0) _exit(2);
+  if (pristine) fprintf(fplan, "# unmutated %s\n", id);     /* the topology part is untouched: the result must be well-formed */
+  fprintf(fplan, "# distdrop-plan %s k=%u want=%s mech=%s\n", id, k, want ? want : "-", mech);
+  fprintf(fplan, "%s %c %lu %d %zu %016llx ", id, mode, xflags, u, m->n, (unsigned long long) fnv(m->p, m->n)); fflush(fplan);
+  g_distoracle = pristine;
+  int res = run_case_lc(id, m->p, m->n, mode, xflags, u, path, 0, 0);
+  g_distoracle = 0;
+  if (res == 1) fprintf(fplan, "loaded\n"); else { fprintf(fplan, "failed\n"); remove(path); }
+  if (res == 1 && strict && !g_distpat[0]) die("distances-list class: the oracle has no opinion on a pristine document (case %s)", id);
+  if (res == 1 && g_distpat[0]) {
+    if (want && strcmp(want, g_distpat)) die("distances-list class: generator wanted drop pattern %s, the loaded document has %s (case %s)", want, g_distpat, id);
+    fprintf(fplan, "# distdrop %s k=%zu drop=%s mech=%s\n", id, strlen(g_distpat), g_distpat, mech);
+  }
+  fflush(fplan);
+  if (res != 1 && strict) die("distances-list class: a valid document with retargeted <indexes> / type filters does not load (case %s mode %c)", id, mode);
+  return res;
+}
+/* prologue of every gen process: every subset of dropped elements for k = 1..5 (62 cases), then DD_FILTER_CASES filter-driven cases */
+static void dd_prologue(FILE *fplan, const char *outdir) {
+  struct { unsigned char k, mask; } pat[62]; unsigned np = 0;
+  for (unsigned k = 1; k <= 5; k++) for (unsigned mask = 0; mask < (1u << k); mask++) { pat[np].k = k; pat[np].mask = mask; np++; }
+  for (unsigned i = np - 1; i > 0; i--) { unsigned j = rng_below(i + 1); unsigned char a = pat[i].k, b = pat[i].mask; pat[i] = pat[j]; pat[j].k = a; pat[j].mask = b; }
+  struct buf m = {0}; unsigned idn = 0;
+  for (unsigned i = 0; i < np + DD_FILTER_CASES; i++) {
+    unsigned k = i < np ? pat[i].k : 2 + rng_below(4), mask = i < np ? pat[i].mask : 0;
+    if (build_ddoc(&m, k, rng_chance(25)) < 0) die("distances-list class: cannot build a document with %u matrices", k);
+    unsigned long xflags = gen_xflags() & ~(unsigned long) HWLOC_TOPOLOGY_FLAG_NO_DISTANCES;
+    const char *mech = "r"; char want[8];
+    if (i >= np) { xflags |= dd_none_filter(&m); mech = "f"; if (rng_chance(50)) { mask = rng_below(1u << k); mech = "rf"; } }
+    dd_apply_mask(&m, k, mask);
+    mask_str(want, k, mask);
+    char id[32]; snprintf(id, sizeof id, "p%u", idn++);
+    dd_exec(fplan, outdir, id, &m, rng_chance(85) ? 'B' : 'F', xflags, 0, k, i < np ? want : NULL, mech, 1, 1);
+  }
+  free(m.p);
 }
 
 int main(int argc, char **argv) {
@@ -719,7 +1184,9 @@ int main(int argc, char **argv) {
     int u = argc > 6 && argv[6][0] == 'u';
     int have_override = 0, size_override = 0;
     if (argc > 7 && !strncmp(argv[7], "size=", 5)) { have_override = 1; size_override = atoi(argv[7] + 5); }
+    g_distoracle = env_on("VERIF_DISTORACLE");
     int r = run_case_lc("c0", (unsigned char *) b, len, mode, xflags, u, argv[2], size_override, have_override);
+    if (g_distoracle && r == 1) printf("distances oracle: %s\n", g_distpat[0] ? g_distpat : "no opinion");
     if (r == 1) printf("case: loaded\n"); else if (r == 2) printf("case: failed\n"); else printf(r == '7' ? "case: skipped-F71\n" : "case: skipped-F05%c\n", r);
     free(b); fclose(fdump);
     return 0;
@@ -739,10 +1206,42 @@ int main(int argc, char **argv) {
   rng_seed(rng_seed_from_env());
   build_seeds(argv[3]);
   if (!ndocs || !valid_doc.n) { fprintf(stderr, "no seed documents\n"); return 2; }
-  fprintf(fplan, "# seeds %u (diff %u) backend %s\n", ndocs, ndiffdocs, nolibxml ? "nolibxml" : "libxml"); fflush(fplan);
+  /* seed documents that carry distances elements (bundled files, own exports) */
+  unsigned *distdocs = malloc(sizeof *distdocs * ndocs), ndistdocs = 0;
+  for (unsigned i = 0; i < ndocs; i++) { struct delem de[2]; if (!docs[i].isdiff && find_delems(docs[i].p, docs[i].n, de, 2) >= 1) distdocs[ndistdocs++] = i; }
+  fprintf(fplan, "# seeds %u (diff %u, with distances %u) backend %s\n", ndocs, ndiffdocs, ndistdocs, nolibxml ? "nolibxml" : "libxml"); fflush(fplan);
+  if (!env_on("VERIF_NO_DISTDROP")) dd_prologue(fplan, outdir);
   struct buf m = {0};
   for (unsigned long i = 0; i < n; i++) {
     char id[32]; snprintf(id, sizeof id, "c%lu", i);
+    if (rng_chance(7) && !env_on("VERIF_NO_DISTDROP")) {
+      /* distances-list class, random member: a document with distances (seed document or fresh export with 1..5 matrices), random
+       * subset retargeted, sometimes a KEEP_NONE filter, sometimes 1-2 generic mutations on top (then no oracle) */
+      unsigned long xflags = gen_xflags(); const char *mech = "r"; unsigned nd;
+      int strict = 1;
+      if (ndistdocs && rng_chance(45)) { struct doc *d = &docs[distdocs[rng_below(ndistdocs)]]; b_set(&m, d->p, d->n); strict = 0; }
+      else if (build_ddoc(&m, 1 + rng_below(5), rng_chance(25)) < 0) die("distances-list class: cannot build a document");
+      { struct delem de[16]; nd = find_delems(m.p, m.n, de, 16); if (nd > 16) nd = 16; }
+      unsigned mask = rng_below(1u << nd);
+      dd_apply_mask(&m, nd, mask);
+      if (rng_chance(30)) { xflags |= dd_none_filter(&m); mech = mask ? "rf" : "f"; }
+      int pristine = 1;
+      if (rng_chance(35)) { pristine = 0; mech = "r+mut"; unsigned nm = 1 + rng_below(2); for (unsigned k = 0; k < nm; k++) mutate_once(&m); }
+      unsigned r = rng_below(100);
+      if (pristine) dd_exec(fplan, outdir, id, &m, r < 80 ? 'B' : 'F', xflags, rng_chance(20), nd, NULL, mech, 1, strict);
+      else {
+        /* not pristine: an ordinary mutated case (may fail to load); no oracle, no expectation */
+        char mode = r < 80 ? 'B' : 'F'; int u = rng_chance(20);
+        snprintf(path, sizeof path, "%s/%s.xml", outdir, id);
+        if (write_file(path, m.p, m.n) < 0) return 2;
+        fprintf(fplan, "# distdrop-plan %s k=%u want=- mech=%s\n", id, nd, mech);
+        fprintf(fplan, "%s %c %lu %d %zu %016llx ", id, mode, xflags, u, m.n, (unsigned long long) fnv(m.p, m.n)); fflush(fplan);
+        int res = run_case_lc(id, m.p, m.n, mode, xflags, u, path, 0, 0);
+        if (res == 1) fprintf(fplan, "loaded\n"); else { fprintf(fplan, "failed\n"); remove(path); }
+        fflush(fplan);
+      }
+      continue;
+    }
     unsigned r = rng_below(100);
     char mode = r < 70 ? 'B' : r < 85 ? 'F' : 'D';
     unsigned long xflags = gen_xflags();
@@ -779,9 +1278,12 @@ int main(int argc, char **argv) {
   }
   fprintf(fplan, "# f70-skipped %lu\n", n_f70);
   fprintf(fplan, "# f72-skipped %lu\n", n_f72);
+  fprintf(fplan, "# memcache-leaf-skipped %lu\n", n_mcleaf);
+  fprintf(fplan, "# hugegp-skipped %lu\n", n_hugegp);
+  fprintf(fplan, "# distoracle applied %lu noopinion %lu probes %lu\n", n_oracle, n_oracle_noopinion, n_probe);
   fprintf(fplan, "# done\n");
   fclose(fplan); fclose(fdump);
   for (unsigned i = 0; i < ndocs; i++) free(docs[i].p);
-  free(docs); free(m.p); free(valid_doc.p);
+  free(docs); free(m.p); free(valid_doc.p); free(distdocs);
   return 0;
 }
